@@ -71,8 +71,9 @@ func fieldClass(field string) string {
 // verifyModel lists the inconsistencies RFC 4861 6.2.7 (and the documented
 // extensions) define between our RA (model, wire units) and theirs (decoded).
 // ok=false: a clock-dependent value of ours makes the expectation ambiguous.
-func verifyModel(own *modelOut, theirs *ndp.RouterAdvertisement) (out []inconsistency, hopDontCare bool, ok bool) {
+func verifyModel(own *modelOut, theirs *ndp.RouterAdvertisement) (out []inconsistency, slack map[string]int, hopDontCare bool, ok bool) {
 	ok = true
+	slack = map[string]int{}
 	if own.hop != int(theirs.CurrentHopLimit) {
 		if own.hop == 0 || theirs.CurrentHopLimit == 0 {
 			hopDontCare = true // "unspecified" on one side
@@ -180,42 +181,91 @@ func verifyModel(own *modelOut, theirs *ndp.RouterAdvertisement) (out []inconsis
 			}
 		}
 	}
+	// Lists of RDNSS / DNSSL options: the count must match; how the options of
+	// two equally long lists are paired up is not specified, so with more than
+	// one option the number of lifetime / content reports is bounded by the
+	// minimum and maximum over all pairings (returned as ranges), with a single
+	// option it is exact.
+	listDiffs := func(kind string, n int, lifeDiff, contDiff func(i, j int) bool) {
+		perm := make([]int, n)
+		for i := range perm {
+			perm[i] = i
+		}
+		minL, maxL, minC, maxC := n+1, -1, n+1, -1
+		var rec func(k int)
+		rec = func(k int) {
+			if k == n {
+				l, c := 0, 0
+				for i, j := range perm {
+					if lifeDiff(i, j) {
+						l++
+					}
+					if contDiff(i, j) {
+						c++
+					}
+				}
+				if l < minL {
+					minL = l
+				}
+				if l > maxL {
+					maxL = l
+				}
+				if c < minC {
+					minC = c
+				}
+				if c > maxC {
+					maxC = c
+				}
+				return
+			}
+			for i := k; i < n; i++ {
+				perm[k], perm[i] = perm[i], perm[k]
+				rec(k + 1)
+				perm[k], perm[i] = perm[i], perm[k]
+			}
+		}
+		rec(0)
+		for i := 0; i < minL; i++ {
+			out = append(out, inconsistency{kind + "-lifetime", ""})
+		}
+		for i := 0; i < minC; i++ {
+			out = append(out, inconsistency{kind + "-" + map[string]string{"rdnss": "servers", "dnssl": "names"}[kind], ""})
+		}
+		slack[kind+"-lifetime"] = maxL - minL
+		slack[kind+"-"+map[string]string{"rdnss": "servers", "dnssl": "names"}[kind]] = maxC - minC
+	}
 	if len(oDNS) > 0 && len(tDNS) > 0 {
 		if len(oDNS) != len(tDNS) {
 			out = append(out, inconsistency{"rdnss-count", ""})
+		} else if len(oDNS) <= 5 {
+			listDiffs("rdnss", len(oDNS),
+				func(i, j int) bool { return cmp(oDNS[i], 0, tDNS[j].Lifetime) },
+				func(i, j int) bool {
+					ts := make([]string, len(tDNS[j].Servers))
+					for k, s := range tDNS[j].Servers {
+						ts[k] = s.String()
+					}
+					return strings.Join(ts, ",") != strings.Join(oDNS[i].list, ",")
+				})
 		} else {
-			for i := range oDNS {
-				if cmp(oDNS[i], 0, tDNS[i].Lifetime) {
-					out = append(out, inconsistency{"rdnss-lifetime", ""})
-				}
-				ts := make([]string, len(tDNS[i].Servers))
-				for j, s := range tDNS[i].Servers {
-					ts[j] = s.String()
-				}
-				if strings.Join(ts, ",") != strings.Join(oDNS[i].list, ",") {
-					out = append(out, inconsistency{"rdnss-servers", ""})
-				}
-			}
+			ok = false
 		}
 	}
 	if len(oSL) > 0 && len(tSL) > 0 {
 		if len(oSL) != len(tSL) {
 			out = append(out, inconsistency{"dnssl-count", ""})
+		} else if len(oSL) <= 5 {
+			listDiffs("dnssl", len(oSL),
+				func(i, j int) bool { return cmp(oSL[i], 0, tSL[j].Lifetime) },
+				func(i, j int) bool { return strings.Join(tSL[j].DomainNames, ",") != strings.Join(oSL[i].list, ",") })
 		} else {
-			for i := range oSL {
-				if cmp(oSL[i], 0, tSL[i].Lifetime) {
-					out = append(out, inconsistency{"dnssl-lifetime", ""})
-				}
-				if strings.Join(tSL[i].DomainNames, ",") != strings.Join(oSL[i].list, ",") {
-					out = append(out, inconsistency{"dnssl-names", ""})
-				}
-			}
+			ok = false
 		}
 	}
 	if oCP != nil && tCP != nil && oCP.str != tCP.URI {
 		out = append(out, inconsistency{"captive-portal", ""})
 	}
-	return out, hopDontCare, ok
+	return out, slack, hopDontCare, ok
 }
 
 // Small value domains shared by our configuration and the peer's RA, so that
@@ -256,11 +306,11 @@ func c12Own(rng *verifsim.RNG, s *IfaceSpec) {
 			s.Routes = append(s.Routes, RouteSpec{Prefix: sp(rt), Preference: sp([]string{"low", "medium", "high"}[rng.Intn(3)]), Lifetime: sp(lifeStr(c12Life[rng.Intn(3)]))})
 		}
 	}
-	if rng.Bool(0.6) {
-		s.RDNSS = []RDNSSSpec{{Servers: c12DNS[rng.Intn(2)], Lifetime: sp(lifeStr(c12Life[rng.Intn(3)]))}} // sorted lists only: the parser sorts
+	for i, k := 0, rng.Pick(4, 4, 2, 1); i < k; i++ {
+		s.RDNSS = append(s.RDNSS, RDNSSSpec{Servers: c12DNS[rng.Intn(2)], Lifetime: sp(lifeStr(c12Life[rng.Intn(3)]))}) // sorted lists only: the parser sorts
 	}
-	if rng.Bool(0.6) {
-		s.DNSSL = []DNSSLSpec{{DomainNames: c12SL[rng.Intn(3)], Lifetime: sp(lifeStr(c12Life[rng.Intn(3)]))}}
+	for i, k := 0, rng.Pick(4, 4, 2, 1); i < k; i++ {
+		s.DNSSL = append(s.DNSSL, DNSSLSpec{DomainNames: c12SL[rng.Intn(3)], Lifetime: sp(lifeStr(c12Life[rng.Intn(3)]))})
 	}
 	if rng.Bool(0.5) {
 		s.MTU = ip(c12MTU[rng.Intn(2)])
@@ -283,10 +333,10 @@ func c12Peer(rng *verifsim.RNG) *RASpec {
 			ra.Opts = append(ra.Opts, OptSpec{Kind: "route", Prefix: rt, RPref: []string{"low", "medium", "high"}[rng.Intn(3)], Life: c12Life[rng.Intn(3)]})
 		}
 	}
-	if rng.Bool(0.6) {
+	for i, k := 0, rng.Pick(4, 4, 2, 1); i < k; i++ {
 		ra.Opts = append(ra.Opts, OptSpec{Kind: "rdnss", Servers: c12DNS[rng.Intn(3)], Life: c12Life[rng.Intn(3)]})
 	}
-	if rng.Bool(0.6) {
+	for i, k := 0, rng.Pick(4, 4, 2, 1); i < k; i++ {
 		ra.Opts = append(ra.Opts, OptSpec{Kind: "dnssl", Domains: c12SL[rng.Intn(3)], Life: c12Life[rng.Intn(3)]})
 	}
 	if rng.Bool(0.5) {
@@ -497,7 +547,7 @@ func c12Oracle(info *runInfo, res *verifsim.Result) {
 		if own.fail != "" || len(own.unrep) > 0 {
 			continue
 		}
-		want, hopDC, ok := verifyModel(own, theirs)
+		want, slack, hopDC, ok := verifyModel(own, theirs)
 		if !ok {
 			res.Probe("ambiguous_clock_dependent")
 			continue
@@ -511,6 +561,23 @@ func c12Oracle(info *runInfo, res *verifsim.Result) {
 				if x.class != "hop" {
 					g2 = append(g2, x)
 				}
+			}
+			got = g2
+		}
+		// pairing slack: up to slack[class] additional reports of a list class are legal
+		if len(slack) > 0 {
+			cntW := map[string]int{}
+			for _, x := range want {
+				cntW[x.class]++
+			}
+			cntG := map[string]int{}
+			var g2 []inconsistency
+			for _, x := range got {
+				cntG[x.class]++
+				if sl, isList := slack[x.class]; isList && cntG[x.class] > cntW[x.class] && cntG[x.class] <= cntW[x.class]+sl {
+					continue
+				}
+				g2 = append(g2, x)
 			}
 			got = g2
 		}
